@@ -31,8 +31,8 @@ impl Prop for C12 {
     }
     fn runs(&self, tier: Tier) -> u64 {
         match tier {
-            Tier::Quick => 60_000,
-            Tier::Thorough => 1_500_000,
+            Tier::Quick => 1_000_000,
+            Tier::Thorough => 15_000_000,
             Tier::Tiny => 200,
         }
     }
